@@ -596,6 +596,7 @@ class CycleMon(Monitor):
     prop = 'C06'
 
     def __init__(self):
+        self.pending = {}   # device -> one-shot offsets requested by operations, not yet consumed by a cycle
         self.acc = {}       # device -> [part id, needed, operational time so far]
         self.count = {}     # device -> parts accepted so far
         self.cur = {}       # device -> cycle time currently configured (spec + 'cycle' ops)
@@ -606,7 +607,7 @@ class CycleMon(Monitor):
     def attach(self, w):
         self.specs = {d['name']: d for d in w.spec['devices']}
         for d in w.spec['devices']:
-            if d['kind'] in ('handler', 'processor'):
+            if d['kind'] in ('handler', 'processor', 'sink'):
                 self.cur[d['name']] = d.get('cycle', 0)
             if d['kind'] == 'source':
                 self.src_base[d['name']] = 0
@@ -637,6 +638,9 @@ class CycleMon(Monitor):
         xop = w.executed_op(ev)
         if xop is not None and xop[0] == 'cycle':
             self.cur[xop[1]] = xop[2]
+        if xop is not None and xop[0] == 'offset':
+            # requested while the device may be busy, down or idle: it applies to the next cycle that STARTS
+            self.pending[xop[1]] = self.pending.get(xop[1], 0) + xop[2]
         for t in w.hub.tlog:
             k = t[0]
             if k == 'received':
@@ -644,10 +648,22 @@ class CycleMon(Monitor):
                 d = w.dev[name]
                 if isinstance(d, Sink):
                     last = self.sink_last.get(name)
-                    c = self.specs[name].get('cycle', 0)
-                    if last is not None and now < last + c:
-                        raise Violation('sink_cycle', f'{name} accepted at {now}, previous at {last}, cycle {c}')
-                    self.sink_last[name] = now
+                    if last is not None and now < last[0] + last[1]:
+                        raise Violation('sink_cycle', f'{name} accepted at {now}, previous at {last[0]}, cycle time of that '
+                                                      f'cycle {last[1]}')
+                    # the cycle that starts now: configured / per-part cycle time plus one-shot offsets, floored at 0
+                    sp = self.specs[name]
+                    i = self.count.get(name, 0)
+                    self.count[name] = i + 1
+                    c = self.cur.get(name, sp.get('cycle', 0))
+                    if sp.get('cycles'):
+                        c = sp['cycles'][i % len(sp['cycles'])]
+                    self.cur[name] = c
+                    off = sp['offsets'][i % len(sp['offsets'])] if sp.get('offsets') else 0
+                    if isinstance(off, (list, tuple)):
+                        off = sum(off)
+                    off += self.pending.pop(name, 0)
+                    self.sink_last[name] = (now, max(0, c + off))
                     continue
                 if not _is_cycle_dev(d):
                     continue
@@ -663,6 +679,9 @@ class CycleMon(Monitor):
                 off = sp['offsets'][i % len(sp['offsets'])] if sp.get('offsets') else 0
                 if isinstance(off, (list, tuple)):
                     off = sum(off)
+                off += self.pending.pop(name, 0)
+                if sp.get('slow') and t[4] < 0.5:
+                    c = c * sp['slow']              # cycle time as the device's public property reports it for this part
                 need = max(0, c + off)
                 self.acc[name] = [t[2], need, 0]
                 if need == 0:
